@@ -219,8 +219,9 @@ PROPS = {
                         "strings.ToLower is modelled for ASCII, Latin-1, basic Greek and a few specials; other runes under (?i) are outside the model",
                         "C11_equiv assumes that Go's regexp engine matches only what the relation M of Spec/Rx.lean allows (M over-approximates: "
                         "classes and empty-width operators other than \\A/\\z are unconstrained; a FoldCase literal rune is the smallest of its fold orbit)"],
-        "open_statements": ["the exact-match fast path (^literal$, non-capturing evaluation) is compared with the regex by the correspondence only: "
-                            "its equivalence needs the precise semantics of anchors and case folding, which Spec/Rx.lean deliberately does not fix"],
+        "open_statements": ["the exact-match fast path is proved equivalent to the regex for case-sensitive literals (C11_exact_fastpath, with the exact "
+                            "regex semantics of Proofs/Regex.lean); the case-insensitive variant ((?i)^literal$ vs strings.EqualFold, incl. the Kelvin sign "
+                            "and long s) is compared by the correspondence only"],
     },
     "C16": {
         "engines": [{"name": "parse", "quick": 12000, "thorough": 400000, "shards": 8}],
